@@ -33,12 +33,24 @@ CFG = {
             "cursor restore the combinators perform themselves is observable; "
             "sampled: depth-3 expressions (random top combinator over depth-<=2 operands) x random strings <= 6; random beyond: depth "
             "<= 5, guards ==, !=, range, unguarded, bytes incl. NUL/0x7f/0x80/0xff, buffers <= 10 (quick) / 14 (thorough), random cursor. "
-            "Non-trivial = the expression has >= 2 combinators, its star bodies consume, and >= 2 bytes of input remain after the cursor.",
+            "OVERLAPPING ALTERNATIVES ON ONE PARSER OBJECT (the harness builds every combinator object once per case and reuses it: a "
+            "combinator under a Star is the same object in every round): alternatives x|y for every ordered pair of 8 consuming operands "
+            "a, b, U, ab, aa, ba, a b*, a !b (identical / shared first byte / one a prefix of the other / one subsuming the other), 48 with "
+            "a nullable side (a*, !b, (ab)*), 128 nested (x|y)|z, x|(y|z); grammars (x|y)* x every string <= 5 (quick) / 7 (thorough) over "
+            "{a,b}; ((x|y)c)*, (c(x|y))*, ((x|y)*c)* and the nullable ones as ((x|n)c)* x every string <= 4 / 6 over {a,b,c}, so that every "
+            "order of left/right wins occurs. REUSE cases `<expr> (<hexbuf> <pos>)+`: one parser object applied to several inputs in a row "
+            "(every pair - thorough: and triple - of strings <= 2 over {a,b} for the 112 alternatives; every cursor of one buffer of "
+            "length 3..4 / 3..5 ascending and descending for the alternatives and (x|y)*; n/2 (at most 200000) random 2-4 step cases "
+            "over the family and over random expressions); the model is stateless (steps = map), the oracle judges every step on its "
+            "own against the PEG denotation and reports a wrong later step as class state-carried-across-applications. "
+            "Non-trivial = the expression has >= 2 combinators, its star bodies consume, and >= 2 bytes of input remain after the cursor "
+            "(reuse case: >= 1 combinator and >= 2 steps with input remaining).",
     "trusted_base": COMMON_TB + [
         "modelled, not verified: ParseBuffer::get_cursor/buf/set_cursor_unsafe as index arithmetic on a whole buffer with the "
         "assert as an explicit panic outcome (restricted views: C17)",
         "guards are pure predicates on the character (Rust type FnMut(&char)->bool would allow stateful closures; none in the crate)",
-        "harness: the type-erased Dyn wrapper re-packs each combinator's typed result into a uniform tree without touching the cursor; "
+        "harness: the type-erased Node wrapper (built once per case, heap nodes handed to the crate's combinators as &mut borrows) "
+        "re-packs each combinator's typed result into a uniform tree without touching the cursor; "
         "RawChar (a harness-defined operand built on the crate's parse_prim) is modelled by Comb.rawChar",
     ],
     "assumptions": [
